@@ -1,1 +1,43 @@
-From VGI Require Import M_Url.
+(* C37: behaviours of the UNREPAIRED validators that contradict the statement (kept as documentation of the defect;
+   *_old = the validators without the two guards), and a note on ports. *)
+From Coq Require Import List NArith Bool.
+From VGI Require Import Bytes Layout Utf8 M_Url.
+Import ListNotations.
+Open Scope N_scope.
+
+Definition cupola : str := [99; 117; 112; 111; 108; 97; 46; 113; 117; 101; 114; 121; 45; 102; 97; 114; 109; 46; 115; 101; 114; 118; 105; 99; 101; 115].
+Definition evil : str := [101; 118; 105; 108; 46; 99; 111; 109].            (* evil.com *)
+Definition default_allowed : list str := [s_https ++ s_css ++ cupola].
+
+(* https://evil.com\@cupola.query-farm.services/x  and  http://evil.com\@localhost/ : accepted by the old validator, and
+   the Location built from them (token in the fragment) belongs to evil.com for a browser *)
+Lemma C37_return_to_safe_refuted :
+  exists u params,
+    validate_return_to_old (fun _ => true) default_allowed u = Accept /\
+    whatwg_origin s_https (location_of u params) = OTuple s_https (HDomain evil) None /\
+  exists u2,
+    validate_return_to_old (fun _ => true) default_allowed u2 = Accept /\
+    whatwg_origin s_https (location_of u2 params) = OTuple s_http (HDomain evil) None.
+Proof.
+  exists (s_https ++ s_css ++ evil ++ [92; 64] ++ cupola ++ [47; 120]), [116; 111; 107; 101; 110; 61; 116].
+  split; [vm_compute; reflexivity|]. split; [vm_compute; reflexivity|].
+  exists (s_http ++ s_css ++ evil ++ [92; 64] ++ s_localhost ++ [47]).
+  split; vm_compute; reflexivity.
+Qed.
+
+(* "/\evil.com", "\\evil.com" (prefix ""), "///evil.com": returned unchanged by the old validator, evil.com for a browser *)
+Lemma C37_original_same_origin_refuted :
+  forall u, In u [[47; 92] ++ evil; [92; 92] ++ evil; [47; 47; 47] ++ evil; [47; 9; 47; 47] ++ evil] ->
+    validate_original_url_old (fun _ => true) [] u = POk u /\
+    whatwg_origin s_https u = OTuple s_https (HDomain evil) None.
+Proof.
+  intros u H. cbn [In] in H. destruct H as [H|[H|[H|[H|[]]]]]; subst u; split; vm_compute; reflexivity.
+Qed.
+
+(* Not alarmed on (reading of "allowlisted origin" adopted from the code's docstring): the port of an allowlisted host
+   is not compared when the entry has none -- https://cupola.query-farm.services:8443/ is accepted (also by the
+   repaired validator) although its origin, port included, is not the listed one. *)
+Lemma C37_port_of_allowlisted_host_not_checked :
+  validate_return_to (fun _ => true) default_allowed (s_https ++ s_css ++ cupola ++ [58; 56; 52; 52; 51; 47]) = Accept /\
+  whatwg_origin s_https (s_https ++ s_css ++ cupola ++ [58; 56; 52; 52; 51; 47]) = OTuple s_https (HDomain cupola) (Some 8443).
+Proof. split; vm_compute; reflexivity. Qed.
